@@ -67,6 +67,26 @@ func pxWant(w uint32) (os.FileMode, bool) {
 	return m, false
 }
 
+// fromFileModeRef: os.FileMode -> wire word by the independent table (regular/dir + permission and special bits).
+func fromFileModeRef(m os.FileMode) uint32 {
+	w := uint32(m & 0o777)
+	if m&os.ModeSetuid != 0 {
+		w |= pxISUID
+	}
+	if m&os.ModeSetgid != 0 {
+		w |= pxISGID
+	}
+	if m&os.ModeSticky != 0 {
+		w |= pxISVTX
+	}
+	for _, t := range pxTypes {
+		if m&os.ModeType == t.go_ {
+			return w | t.px
+		}
+	}
+	return w
+}
+
 func pxString(w uint32) string {
 	b := []byte("?---------")
 	for _, t := range pxTypes {
@@ -128,6 +148,7 @@ func c17Run(u *vfUnit) {
 		c17Setstat(u)
 	default:
 		c17LongNames(u)
+		c17VirtualLongNames(u)
 	}
 }
 
@@ -720,5 +741,140 @@ func c17LongNames(u *vfUnit) {
 		if msg := rs.End(60 * time.Second); msg != "" {
 			u.Violation("longname:end", msg, nil)
 		}
+	}
+}
+
+// ---- listings of a request server whose entries do not come from a file system -------------
+
+// c17VInfo is a virtual directory entry: no Sys() value, or a real file's FileInfo wrapped;
+// the owner comes from FileInfoUidGid when hasOwner is set.
+type c17VInfo struct {
+	name     string
+	size     int64
+	mode     os.FileMode
+	mtime    time.Time
+	sys      any
+	uid, gid uint32
+}
+
+func (i c17VInfo) Name() string       { return i.name }
+func (i c17VInfo) Size() int64        { return i.size }
+func (i c17VInfo) Mode() os.FileMode  { return i.mode }
+func (i c17VInfo) ModTime() time.Time { return i.mtime }
+func (i c17VInfo) IsDir() bool        { return i.mode.IsDir() }
+func (i c17VInfo) Sys() any           { return i.sys }
+
+type c17VOwned struct{ c17VInfo }
+
+func (i c17VOwned) Uid() uint32 { return i.uid }
+func (i c17VOwned) Gid() uint32 { return i.gid }
+
+type c17VHandlers struct{ l c17Lister }
+
+func (h c17VHandlers) Filelist(r *Request) (ListerAt, error) { return h.l, nil }
+
+// c17VirtualLongNames: entries that implement FileInfoUidGid (with and without a Sys() value) and
+// entries without any owner information, listed by the request server; the long name's mode
+// string, owner, size and date must agree with the ATTRS of the same entry, and the ATTRS with
+// the entry.
+func c17VirtualLongNames(u *vfUnit) {
+	r := u.Rng
+	now := time.Now()
+	real, _ := os.Lstat(u.TempDir())
+	var l c17Lister
+	want := map[string]c17VInfo{}
+	owned := map[string]bool{}
+	for i := 0; i < 40; i++ {
+		v := c17VInfo{name: fmt.Sprintf("v%03d", i), size: int64(r.Intn(1 << 30)), mode: os.FileMode(r.Intn(512)), uid: uint32(r.Intn(1 << 31)), gid: uint32(r.Intn(1 << 31))}
+		switch r.Intn(4) {
+		case 0:
+			v.mode |= os.ModeDir
+		case 1:
+			v.mode |= os.ModeSetuid
+		}
+		if r.Bool() {
+			v.mtime = now.AddDate(0, -6, -2-r.Intn(3000))
+		} else {
+			v.mtime = now.AddDate(0, 0, -r.Intn(170))
+		}
+		v.mtime = v.mtime.Truncate(time.Second)
+		switch i % 3 {
+		case 0: // no Sys() value, owner from FileInfoUidGid
+			l = append(l, c17VOwned{v})
+			owned[v.name] = true
+		case 1: // a real file's Sys() value, owner remapped by FileInfoUidGid
+			if real != nil {
+				v.sys = real.Sys()
+			}
+			l = append(l, c17VOwned{v})
+			owned[v.name] = true
+		default: // no owner information at all
+			l = append(l, v)
+		}
+		want[v.name] = v
+	}
+	rs, err := vfRawConnect(vfSrvCfg{Kind: vfRS, H: Handlers{FileList: c17VHandlers{l}}}, vfPipeOpts{}, true)
+	if err != nil {
+		u.Inconclusive("connect: %v", err)
+		return
+	}
+	rep, err := rs.R.Phase(60*time.Second, vfPkt{Type: rfOpendir, ID: 1, Path: "/"})
+	if err != nil || len(rep) != 1 || rep[0].Type != rfHandle {
+		u.Violation("longname:virtual:opendir", fmt.Sprintf("opendir: %v %v", rep, err), nil)
+		return
+	}
+	h := rep[0].Handle
+	got := 0
+	for id := uint32(2); id < 100; id++ {
+		rep, err := rs.R.Phase(60*time.Second, vfPkt{Type: rfReaddir, ID: id, Handle: h})
+		if err != nil {
+			u.Violation("longname:virtual:readdir", err.Error(), nil)
+			return
+		}
+		if rep[0].Type == rfStatus {
+			break
+		}
+		for _, e := range rep[0].Names {
+			got++
+			v, known := want[e.Name]
+			u.Count("longname_entries", 1)
+			u.Count("longname_virtual_entries", 1)
+			u.Eval(fmt.Sprintf("long:virtual:%d:%#o", got%3, e.Attrs.Perm))
+			perms, _, owner, group, size, date, ok := c17ParseLong(e.Long, e.Name)
+			if !ok || !known {
+				u.Violation("longname:virtual:format", fmt.Sprintf("long name %q of %q does not parse (known entry: %v)", e.Long, e.Name, known), nil)
+				continue
+			}
+			var probs []string
+			if perms != pxString(e.Attrs.Perm) {
+				probs = append(probs, fmt.Sprintf("perms %q vs attrs %q", perms, pxString(e.Attrs.Perm)))
+			}
+			if size != e.Attrs.Size {
+				probs = append(probs, fmt.Sprintf("size %d vs attrs %d", size, e.Attrs.Size))
+			}
+			if e.Attrs.Flags&rfAttrUIDGID != 0 && (owner != strconv.Itoa(int(e.Attrs.UID)) || group != strconv.Itoa(int(e.Attrs.GID))) {
+				probs = append(probs, fmt.Sprintf("owner %s:%s vs attrs %d:%d", owner, group, e.Attrs.UID, e.Attrs.GID))
+			}
+			if wd := c17WantDate(int64(e.Attrs.Mtime), now); date != wd {
+				probs = append(probs, fmt.Sprintf("date %q vs mtime %q", date, wd))
+			}
+			// the attributes vs the entry the lister supplied
+			if e.Attrs.Size != uint64(v.size) || e.Attrs.Perm != fromFileModeRef(v.mode) || int64(e.Attrs.Mtime) != v.mtime.Unix() {
+				probs = append(probs, fmt.Sprintf("attrs %+v vs the lister's entry size=%d mode=%v mtime=%d", e.Attrs, v.size, v.mode, v.mtime.Unix()))
+			}
+			if owned[e.Name] && (e.Attrs.Flags&rfAttrUIDGID == 0 || e.Attrs.UID != v.uid || e.Attrs.GID != v.gid) {
+				probs = append(probs, fmt.Sprintf("attrs owner %d:%d (flags %#x) vs FileInfoUidGid %d:%d", e.Attrs.UID, e.Attrs.GID, e.Attrs.Flags, v.uid, v.gid))
+			}
+			if len(probs) > 0 {
+				u.Violation("longname:virtual:"+strings.SplitN(probs[0], " ", 2)[0], fmt.Sprintf("entry %q long name %q: %s", e.Name, e.Long, strings.Join(probs, "; ")), map[string]any{"long": e.Long, "attrs": fmt.Sprintf("%+v", e.Attrs)})
+			}
+		}
+	}
+	if got != len(l) {
+		u.Violation("longname:virtual:count", fmt.Sprintf("listing returned %d entries, the lister has %d", got, len(l)), nil)
+	}
+	rs.R.Phase(60*time.Second, vfPkt{Type: rfClose, ID: 1000, Handle: h})
+	if msg := rs.End(60 * time.Second); msg != "" {
+		u.Violation("longname:virtual:end", msg, nil)
 	}
 }
